@@ -42,10 +42,14 @@ static int write_history (const Fmt *f, int ch, int mode, int meta, const long *
 		mid_on = 0 ;
 		if (w != parts [p]) { INLIB (sf_close (sf)) ; return -2 ; }
 		n += parts [p] ;
-		if (mode == 1)
-		{	if (with_mid) { dev.on_write = on_write ; mid_on = 1 ; }
+		if (mode == 1 || mode >= 3)
+		{	/* modes 3 / 4: the write pointer is parked at frame 0 / in the middle while the header is updated, and moved back to the end afterwards */
+			sf_count_t sk = 0 ;
+			if (mode >= 3) { INLIB (sk = sf_seek (sf, mode == 3 ? 0 : n / 2, SEEK_SET)) ; if (sk < 0) { INLIB (sf_close (sf)) ; return -3 ; } }
+			if (with_mid) { dev.on_write = on_write ; mid_on = 1 ; }
 			INLIB (sf_command (sf, SFC_UPDATE_HEADER_NOW, NULL, 0)) ;
 			mid_on = 0 ;
+			if (mode >= 3) { INLIB (sk = sf_seek (sf, 0, SEEK_END)) ; if (sk != n) { INLIB (sf_close (sf)) ; return -4 ; } }
 			}
 		if (mode != 0 && images) take (&images [p], n) ;
 		}
@@ -73,7 +77,7 @@ static void c11_case (const Fmt *f, int ch, int mode, int meta)
 	char rs [96] ; SF_INFO fi, pi ; const char *err = "" ; long Ffin, Fplain ; uint64_t oh = VL_H0 ;
 	int with_mid = vl_opts.thorough ;
 
-	snprintf (rs, sizeof (rs), "%s|%s|%s", rt_fam (f), rt_chclass (ch), mode == 1 ? "update-now" : "auto") ;
+	snprintf (rs, sizeof (rs), "%s|%s|%s", rt_fam (f), rt_chclass (ch), mode == 1 ? "update-now" : mode == 2 ? "auto" : "update-now-after-seek") ;
 	if (B > 1) { parts [0] = B + 3 ; parts [1] = 1 ; parts [2] = 2 * B - 1 ; parts [3] = 3 ; }
 	else { parts [0] = 5 ; parts [1] = 1 ; parts [2] = 4 ; parts [3] = 3 ; }
 	for (int p = 0 ; p < 4 ; p++) total += parts [p] ;
@@ -83,6 +87,8 @@ static void c11_case (const Fmt *f, int ch, int mode, int meta)
 
 	rc = write_history (f, ch, mode, meta, parts, data, images, with_mid) ;
 	if (rc == -1) { vl_note ("write-open refused") ; free (data) ; vl_end (0, 1) ; return ; }
+	if (rc == -3) { vl_note ("write-mode seek not supported by this codec") ; free (data) ; for (int p = 0 ; p < 4 ; p++) free (images [p].bytes) ; vl_end (0, 3) ; return ; }
+	if (rc == -4) { vl_violation (rt_sig ("%s|seek-end-after-update", rs), "SEEK_END after the header update did not return the frames written so far") ; goto out ; }
 	if (rc != 0) { vl_violation (rt_sig ("%s|write-failed", rs), "history with header updates failed (rc=%d)", rc) ; goto out ; }
 	/* the finished file */
 	{	unsigned char *fb = malloc (dev.len + 1) ; sf_count_t fl = dev.len ; memcpy (fb, dev.data, fl) ;
@@ -152,10 +158,13 @@ void harness_run (void)
 		if (sub >= SF_FORMAT_ALAC_16 && sub <= SF_FORMAT_ALAC_32) continue ;	/* assembled at close: outside the guarantee */
 		for (int ch = 1 ; ch <= 2 ; ch++)
 		{	if (! rt_accepts (f, ch, fmt_default_rate (f))) continue ;
-			for (int mode = 1 ; mode <= 2 ; mode++)
+			for (int mode = 1 ; mode <= 4 ; mode++)
 				for (int meta = 0 ; meta < 2 ; meta++)
-					if (vl_case ("C11 fmt=%s ch=%d mode=%s meta=%d", f->name, ch, mode == 1 ? "update-now" : "auto", meta))
+				{	/* parking the write pointer elsewhere during the update is explored where write-mode seeks are defined: sample-granular encodings */
+					if (mode >= 3 && (! f->gran || sub == SF_FORMAT_DPCM_8 || sub == SF_FORMAT_DPCM_16)) continue ;
+					if (vl_case ("C11 fmt=%s ch=%d mode=%s meta=%d", f->name, ch, mode == 1 ? "update-now" : mode == 2 ? "auto" : mode == 3 ? "update-now-at-frame0" : "update-now-at-middle", meta))
 					{	vl_root_count (f->name) ; c11_case (f, ch, mode, meta) ; }
+					}
 			}
 		}
 }
